@@ -1518,6 +1518,9 @@ func (r *FnRun) finish() {
 		e0 := r.env(r.Entry, r.Entry)
 		e0.assuming = false
 		p := e0.evalBool(cl.E)
+		if p.S == "true" || p.S == "false" {
+			continue // unconditional: nothing to cover
+		}
 		st := r.Entry.clone()
 		r.addGoalRaw(&Goal{Oblig: r.FnName + "/cover." + clauseName("panics_iff", cl, i+1) + ".true", Prefix: appendAssume(st.log, p), Goal: False, Expect: "sat"})
 		r.addGoalRaw(&Goal{Oblig: r.FnName + "/cover." + clauseName("panics_iff", cl, i+1) + ".false", Prefix: appendAssume(st.log, Not(p)), Goal: False, Expect: "sat"})
